@@ -1716,8 +1716,8 @@ func (s *evSim) classify(views map[string]*evView, tasks []*evTask) []string {
 				if p == q || p.pendPoss {
 					continue
 				}
-				if !qIsCand || !evMustPrecede(q, p, t.feature) {
-					behind = true
+				if !qIsCand || !evMustPrecede(q, p, t.feature) || (t.feature == fBE && q.evprio != p.evprio) {
+					behind = true // (the BE strategies do not look at the eviction priority: p may well come first)
 				}
 			}
 		}
@@ -1763,6 +1763,9 @@ func (s *evSim) firstClass(names ...string) string {
 // be explored: half of all runs meet one in their first evicting round); it is kept and reported at the end of the
 // run, unless a violation outside the recorded findings is met first.
 func (s *evSim) fail(oracle, detail, cls, format string, args ...any) {
+	// development aids (never set by verifctl): VERIF_EVICT_HARD=1 ends the run at the first violation even if it is a
+	// recorded finding; VERIF_EVICT_RENAME=x- prefixes every oracle name so that no signature matches a recorded finding
+	// and the full messages are printed
 	if cls != "" && os.Getenv("VERIF_EVICT_HARD") == "" {
 		for _, c := range s.classes {
 			if c == cls {
@@ -1777,7 +1780,6 @@ func (s *evSim) fail(oracle, detail, cls, format string, args ...any) {
 	for _, c := range s.classes {
 		s.r.Tag(c)
 	}
-	// development aid: VERIF_EVICT_RENAME=x makes every signature miss the recorded findings, so that the full message is printed
 	s.r.Fail(os.Getenv("VERIF_EVICT_RENAME")+oracle, detail, format, args...)
 }
 
